@@ -91,7 +91,7 @@ void NiSkinPartition::Sync(NiStreamReversible& stream) {
 		stream.Sync(vertexSize);
 		vertexDesc.Sync(stream);
 
-		if (dataSize > 0) {
+		if (dataSize > 0 && vertexSize > 0) {
 			if (stream.GetMode() == NiStreamReversible::Mode::Reading)
 				numVertices = dataSize / vertexSize;
 
